@@ -48,6 +48,20 @@ TEMPLATES = (
     ({"cls": "KC", "kw": {"period": 3, "multiplier": 2.0}}, {"cls": "KC", "kw": {"period": 3, "multiplier": 3.0, "input_value": "high"}}),
     ({"cls": "Supertrend", "kw": {"period": 3, "multiplier": 2.0}}, {"cls": "Supertrend", "kw": {"period": 3, "multiplier": 3.0, "name_suffix": "wide"}}),
     ({"cls": "StandardDeviationThreshold", "kw": {"period": 3, "multiplier": 1.0}}, {"cls": "StandardDeviationThreshold", "kw": {"period": 3, "multiplier": 2.0, "input_value": "high", "name_suffix": "h"}}),
+    # a plain indicator of the class and period a composite uses for a helper, on ANOTHER input (a helper left with its
+    # default name would be mistaken for it, or the other way round)
+    ({"cls": "EMA", "kw": {"period": 3, "input_value": "high"}}, {"cls": "KC", "kw": {"period": 3}}),
+    ({"cls": "EMA", "kw": {"period": 2, "input_value": "high"}}, {"cls": "MACD", "kw": {"fast_period": 2, "slow_period": 3, "signal_period": 2}}),
+    ({"cls": "EMA", "kw": {"period": 3, "input_value": "low"}}, {"cls": "MACD", "kw": {"fast_period": 2, "slow_period": 3, "signal_period": 3}}),
+    ({"cls": "EMA", "kw": {"period": 4, "input_value": "high"}}, {"cls": "TSI", "kw": {"period": 4}}),
+    ({"cls": "RMA", "kw": {"period": 3, "input_value": "high"}}, {"cls": "ADX", "kw": {"period": 3}}),
+    ({"cls": "SMA", "kw": {"period": 3, "input_value": "high"}}, {"cls": "STOCH", "kw": {"period": 5}}),
+    ({"cls": "WMA", "kw": {"period": 4, "input_value": "high"}}, {"cls": "HMA", "kw": {"period": 4}}),
+    ({"cls": "SMA", "kw": {"period": 4, "input_value": "low"}}, {"cls": "BBANDS", "kw": {"period": 4}}),
+    ({"cls": "ATR", "kw": {"period": 3}}, {"cls": "Supertrend", "kw": {"period": 3}}),
+    ({"cls": "Supertrend", "kw": {"period": 3}}, {"cls": "Supertrend", "kw": {"period": 5}}),
+    ({"cls": "TR", "kw": {"round_value": 1}}, {"cls": "ATR", "kw": {"period": 3}}),
+    ({"cls": "TR", "kw": {"round_value": 1}}, {"cls": "Supertrend", "kw": {"period": 3}}),
 )
 OPS = ("purge", "recalculate", "remove", "calculate", "append", "purge", "recalculate")
 
